@@ -164,6 +164,14 @@ impl Buildpack for Vbp {
         }
         for f in self.script["lsbom"].as_array().cloned().unwrap_or_default() {
             let f = f.as_str().unwrap();
+            // the CycloneDX launch SBOM goes through libcnb's conversion from a cyclonedx_bom::Bom (feature
+            // `cyclonedx-bom`) built without a serial number - the way to get reproducible SBOMs
+            if f == "cdx.json" {
+                use cyclonedx_bom::models::{bom::Bom, component::{Classification, Component, Components}};
+                let bom = Bom { serial_number: None, components: Some(Components(vec![Component::new(Classification::Library, "launch-component", "1.2.3", None)])), ..Bom::default() };
+                b = b.launch_sbom(Sbom::try_from(bom).expect("cyclonedx conversion"));
+                continue;
+            }
             b = b.launch_sbom(Sbom::from_bytes(sbom_format(f), format!("{{\"sbom\":\"launch {f}\"}}")));
         }
         b.build()
